@@ -114,6 +114,7 @@ func (f *finisher) worker(workerID string) {
 				}
 
 				logger.Debug("received seed", "seed", seed.GetShortID())
+				verifhook.At("finisher.received", seed.GetID())
 
 				if err := seed.CheckConsistency(); err != nil {
 					panic(fmt.Sprintf("seed consistency check failed with err: %s, seed id %s, worker id %s", err.Error(), seed.GetShortID(), workerID))
